@@ -1,9 +1,11 @@
 SPECIFICATION Spec
-INVARIANT DialAuth ClientAuth ServerAuth HonestCompletes NameRoundTrip NameShapeRule NamesWithinAllowed
+INVARIANT DialAuth ClientAuth ServerAuth HonestCompletes NameRoundTrip NameShapeRule NamesWithinAllowed NoWeakIdentity
 INVARIANT Emit
 CHECK_DEADLOCK FALSE
 CONSTANTS
   Keys = {"k1", "k2", "k3"}
+  WeakKeys = {"w1"}
   HeldMode = "full"
   CheckSpki = TRUE
   CheckSig = TRUE
+  Strict = TRUE
